@@ -1,15 +1,49 @@
 (* Entry points of the extracted driver: run the model / the spec checker of a property. *)
 From WI Require Import Lib.Base.
-From WI Require Run.C07 Run.C14 Run.C20.
+From WI Require Run.C01 Run.C02 Run.C03 Run.C04 Run.C05 Run.C06 Run.C07 Run.C08 Run.C09 Run.C10 Run.C11 Run.C12 Run.C13 Run.C14 Run.C15 Run.C16 Run.C17 Run.C18 Run.C19 Run.C20.
 
 Definition run (prop op : bytes) (input : arg) : arg :=
-  if bytes_eqb prop (bs "C14") then Run.C14.run_C14 op input
-  else if bytes_eqb prop (bs "C20") then Run.C20.run_C20 op input
+  if bytes_eqb prop (bs "C01") then Run.C01.run_C01 op input
+  else if bytes_eqb prop (bs "C02") then Run.C02.run_C02 op input
+  else if bytes_eqb prop (bs "C03") then Run.C03.run_C03 op input
+  else if bytes_eqb prop (bs "C04") then Run.C04.run_C04 op input
+  else if bytes_eqb prop (bs "C05") then Run.C05.run_C05 op input
+  else if bytes_eqb prop (bs "C06") then Run.C06.run_C06 op input
   else if bytes_eqb prop (bs "C07") then Run.C07.run_C07 op input
+  else if bytes_eqb prop (bs "C08") then Run.C08.run_C08 op input
+  else if bytes_eqb prop (bs "C09") then Run.C09.run_C09 op input
+  else if bytes_eqb prop (bs "C10") then Run.C10.run_C10 op input
+  else if bytes_eqb prop (bs "C11") then Run.C11.run_C11 op input
+  else if bytes_eqb prop (bs "C12") then Run.C12.run_C12 op input
+  else if bytes_eqb prop (bs "C13") then Run.C13.run_C13 op input
+  else if bytes_eqb prop (bs "C14") then Run.C14.run_C14 op input
+  else if bytes_eqb prop (bs "C15") then Run.C15.run_C15 op input
+  else if bytes_eqb prop (bs "C16") then Run.C16.run_C16 op input
+  else if bytes_eqb prop (bs "C17") then Run.C17.run_C17 op input
+  else if bytes_eqb prop (bs "C18") then Run.C18.run_C18 op input
+  else if bytes_eqb prop (bs "C19") then Run.C19.run_C19 op input
+  else if bytes_eqb prop (bs "C20") then Run.C20.run_C20 op input
   else AL [].
 
 Definition check (prop op : bytes) (input impl : arg) : arg :=
-  if bytes_eqb prop (bs "C14") then Run.C14.check_C14 op input impl
-  else if bytes_eqb prop (bs "C20") then Run.C20.check_C20 op input impl
+  if bytes_eqb prop (bs "C01") then Run.C01.check_C01 op input impl
+  else if bytes_eqb prop (bs "C02") then Run.C02.check_C02 op input impl
+  else if bytes_eqb prop (bs "C03") then Run.C03.check_C03 op input impl
+  else if bytes_eqb prop (bs "C04") then Run.C04.check_C04 op input impl
+  else if bytes_eqb prop (bs "C05") then Run.C05.check_C05 op input impl
+  else if bytes_eqb prop (bs "C06") then Run.C06.check_C06 op input impl
   else if bytes_eqb prop (bs "C07") then Run.C07.check_C07 op input impl
+  else if bytes_eqb prop (bs "C08") then Run.C08.check_C08 op input impl
+  else if bytes_eqb prop (bs "C09") then Run.C09.check_C09 op input impl
+  else if bytes_eqb prop (bs "C10") then Run.C10.check_C10 op input impl
+  else if bytes_eqb prop (bs "C11") then Run.C11.check_C11 op input impl
+  else if bytes_eqb prop (bs "C12") then Run.C12.check_C12 op input impl
+  else if bytes_eqb prop (bs "C13") then Run.C13.check_C13 op input impl
+  else if bytes_eqb prop (bs "C14") then Run.C14.check_C14 op input impl
+  else if bytes_eqb prop (bs "C15") then Run.C15.check_C15 op input impl
+  else if bytes_eqb prop (bs "C16") then Run.C16.check_C16 op input impl
+  else if bytes_eqb prop (bs "C17") then Run.C17.check_C17 op input impl
+  else if bytes_eqb prop (bs "C18") then Run.C18.check_C18 op input impl
+  else if bytes_eqb prop (bs "C19") then Run.C19.check_C19 op input impl
+  else if bytes_eqb prop (bs "C20") then Run.C20.check_C20 op input impl
   else AL [].
